@@ -2,6 +2,7 @@ package rules
 
 import (
 	"go/ast"
+	"go/token"
 	"go/types"
 	"strings"
 
@@ -288,6 +289,52 @@ func checkC15(r *core.Run) {
 	}
 	if found != 2 {
 		r.Bad("C15.route", "branch commit and rollback processors", "", "expected the two phase-two processors, found "+itoa(found))
+	}
+	// the registry the processors route through: GetResourceManager(bt) answers the manager registered under bt —
+	// every lookup it does (itself or in a helper of the package) is keyed by its own parameter, and registration
+	// stores under the manager's own branch type
+	if get := w.Func("pkg/rm", "ResourceManagerCache", "GetResourceManager"); r.Anchor("C15.route", get, "rm.ResourceManagerCache.GetResourceManager") != nil {
+		r.Fn(get)
+		ps := paramObjs(get)
+		nLook := 0
+		var visit func(g *core.FuncInfo, d int)
+		seen := map[*core.FuncInfo]bool{}
+		visit = func(g *core.FuncInfo, d int) {
+			if g == nil || seen[g] || d < 0 || g.Decl.Body == nil {
+				return
+			}
+			seen[g] = true
+			gi := g.Pkg.TypesInfo
+			check := func(k ast.Expr, pos token.Pos) {
+				nLook++
+				r.Sites++
+				o := originVia(get, g, k, 4)
+				r.Check(len(ps) == 1 && o == "param:"+ps[0].Name(), "C15.route", core.ShortKey(get.Obj)+" looks the manager up under the requested branch type", w.Pos(pos), o,
+					"the registry is also read under "+o+", not only under the branch type asked for: a request of a type without a manager on this client is executed by another type's manager and answered with that manager's status")
+			}
+			ast.Inspect(g.Decl.Body, func(n ast.Node) bool {
+				switch x := n.(type) {
+				case *ast.CallExpr:
+					callee := core.Callee(gi, x)
+					if (stdMethod(callee, "sync", "Map", "Load") || stdMethod(callee, "sync", "Map", "LoadOrStore")) && len(x.Args) >= 1 {
+						check(x.Args[0], x.Pos())
+					} else if h := w.Info(callee); h != nil && h.Pkg == get.Pkg && h != g {
+						visit(h, d-1)
+					}
+				case *ast.IndexExpr:
+					if t := gi.TypeOf(x.X); t != nil {
+						if _, isMap := t.Underlying().(*types.Map); isMap {
+							check(x.Index, x.Pos())
+						}
+					}
+				}
+				return true
+			})
+		}
+		visit(get, 2)
+		if nLook == 0 {
+			r.Bad("C15.route", core.ShortKey(get.Obj)+" looks the manager up under the requested branch type", w.Pos(get.Decl.Pos()), "no lookup found")
+		}
 	}
 	// managers: success status only with nil error (shared rules)
 	if u := resolveUndoWorld(r, "C15.truth"); u != nil {
